@@ -4,6 +4,7 @@ import itertools
 
 from . import refmodel, programs, observe as ob
 from .refmodel import Unsupported, Skip
+from .common import stable_hash
 from .programs import op_name
 from .observe import is_err, err
 from .common import exc_sig, jsonable
@@ -55,6 +56,37 @@ def run_case(ld, prog, aspects, prefix_hook=None, watchdog_s=8):
                     pre += [ob.guarded(lambda: ds2[k]) for k in reversed(m.labels)]
                 ob.guarded(lambda: tuple(ds2.keys()))
                 o['scramble'] = (order, pre, ob.take(ds2, limit))
+            if 'neighbour' in aspects and status == 'ok' and m.finite \
+                    and len(prog['src']) <= 3 and stable_hash(repr(prog)) % 3 == 0:
+                # a second pipeline, built from the same program over a source
+                # with the same keys but other values, is alive and consumed in
+                # lock step: neither may see the other's examples (state kept
+                # per class instead of per object, shared default arguments)
+                # (same keys / other keys in turn: a store shared per class is
+                # visible with equal keys, a shared key tuple with different ones)
+                prog_b = {'src': tuple(prog['src'][:3])
+                          + ('k' if stable_hash(repr(prog)) % 2 else 'n', 1000),
+                          'ops': prog['ops']}
+                sb, mb = programs.classify(prog_b)
+                if sb == 'ok' and mb.finite:
+                    da, db = programs.build(ld, prog), programs.build(ld, prog_b)
+
+                    def lockstep():
+                        ia, ib = iter(da), iter(db)
+                        outs = ([], [])
+                        live = [ia, ib]
+                        for _ in range(max(m.n, mb.n) + 3):
+                            for j, it in enumerate((ia, ib)):
+                                if it in live:
+                                    try:
+                                        outs[j].append(next(it))
+                                    except StopIteration:
+                                        live.remove(it)
+                        return outs
+                    o['neighbour'] = (ob.guarded(lockstep), list(mb.values),
+                                      ob.guarded(lambda: (tuple(da.keys()), tuple(db.keys()))),
+                                      (list(mb.labels) if mb.listable
+                                       and mb.labelstate != 'none' else None))
             return status, m, o
     except ob.Watchdog:
         return 'watchdog', m, None
@@ -120,6 +152,21 @@ def judge_c01(prog, status, m, o, res):
                               {'indices': order, 'got': pre[:len(order)], 'want': wantpre},
                               sig={'last_op': lo})
                 return True
+    if 'neighbour' in o:
+        res.count('lockstep_neighbour_pipelines_compared')
+        got, want_b, ks, labels_b = o['neighbour']
+        if labels_b is not None and m.listable and not is_err(ks) and \
+                (list(ks[0]) != list(m.labels) or list(ks[1]) != labels_b):
+            res.violation('pipelines-interfere', case,
+                          {'keys': ks, 'want': (m.labels, labels_b)},
+                          sig={'last_op': lo, 'aspect': 'keys'})
+            return True
+        if is_err(got) or list(got[0]) != want[0] or list(got[1]) != want_b:
+            res.violation('pipelines-interfere', case,
+                          {'this': got if is_err(got) else got[0], 'want': want[0],
+                           'neighbour': None if is_err(got) else got[1],
+                           'neighbour_want': want_b}, sig={'last_op': lo})
+            return True
     if 'partial' in o:
         res.count('partial_then_full_compared')
         if o['partial'][1] != it1:
